@@ -85,6 +85,12 @@ CHECKS = {
    note="Trusted: the whole-unit run is the reference (self-differential, no model). The static-vs-dynamic monitor samples expressions, it does not enumerate the operand-type matrix.",
    technique="deterministic simulation: seeded compile-unit schedules (one unit / statement-at-a-time / groupings), self-differential oracle, per-step type-constraint invariant, static-vs-dynamic type monitor",
    design="DESIGN.md section 4 (C02)"),
+ "C18": dict(
+   level="exploration",
+   text="The real csv, file, utf8 and sqlite3 modules (built from /repo/modules with the sanitizers) are driven as stateful handles by generated scripts whose printed results are compared with harness-side models. file: histories of up to 25 operations (open in r/w/r+/w+/a, write string/bytes, seekset/cur/end with lattice offsets, read/readln with sizes around 0, 1, 4095, 4096, 4097, 8192 and negative, position, flush, close, reopen) over 8-bit content including NUL, CR and LF against a byte-array file model, then an independent reader (read(2) of the file); in the simulated-disk configurations the module's fopen is wrapped and the file lives behind an fopencookie stream that delivers short reads and an EIO / ENOSPC at I/O call #k (after an injected error only 'no crash, no wrong data' is asserted). sqlite3: tuples of integer/decimal/string/bytes/boolean/null are bound, read back by the script (type and content) and by the harness through the libsqlite3 C API. csv: rows of arbitrary byte fields and separator/quote choices are serialised, then deserialised whole and line by line. utf8: count/at/substr/insert/remove/string() against an own decoder for valid input with a position lattice; invalid sequences and out-of-range positions under the memory-safety monitor.",
+   note="Trusted: the byte-array file model and the UTF-8 / CSV expectations in sim/props/C18.cpp; sqlite3's own file I/O and the dynamic loader run for real; glibc does not track the position of cookie streams across writes, so simulated-disk histories write sequentially and re-open read-only for reads and seeks; only the file clause has a fault dimension - csv and utf8 are reference-model checks of stateful handles; plplot is not built and not claimed.",
+   technique="deterministic simulation: seeded operation histories over module handles, simulated disk behind a wrapped fopen (short reads, EIO, ENOSPC), reference models + independent readers (read(2), libsqlite3), ASan monitor",
+   design="DESIGN.md section 4 (C18)"),
 }
 
 NOT_APPLICABLE = {
